@@ -3,10 +3,20 @@
 import json, os
 root = os.path.dirname(os.path.abspath(__file__))
 
-HOOK_COMMITS = []   # filled as hooks land in /repo
+HOOK_COMMITS = ["3ae8aca", "0edfce9"]
 
 # id -> (category, technique, text, note, design_ref)
 CHECKS = {
+ "C17": ("exploration",
+         "bounded exhaustive enumeration (E1/E2 drivers of C07-C12) executed under a memory monitor (AddressSanitizer build + canaries)",
+         "The shape enumerations of C09 (coefficient operations from N=1, ring switching, big accumulators), C12 (every scratch-taking operation with an exact-size window), the set_size histories of C11 and the large-N DFT classes are executed on four backends in a harness built with -Zsanitizer=address: every operand, result and scratch window is a separate heap allocation with red-zones, so any out-of-bounds access aborts; the abort is attributed to the in-flight cases by a signal handler and reported as a violation with a replay file; canaries catch overruns inside one allocation. Detected (and now repaired): the AVX ring-switch kernel writing past the output for N<4.",
+         "Trusted: ASan's heap red-zones (hand-written assembly kernels are covered only through canaries and result checks). Wrong values / clean panics of the same drivers are left to C07-C12. Small-scope argument for large parameters.",
+         "3/C17"),
+ "C20": ("model_checking",
+         "stateless model checking with an own controlled scheduler (E3): exhaustive deviation-bounded DFS over schedules of the real multi-threaded code, plus exhaustive enumeration of thread counts, partitions and operation-granularity interleavings",
+         "execute_bdd_circuit_multi_thread is run on a purpose-built 3-level width-3 circuit with real threads that block at every yield point (worker start, each work item, each CMux, worker end) until the controller grants the baton: all schedules with at most 1-3 preemptions (unbounded for the 2x2 instance in the thorough tier) are explored; each must give output bytes identical to the single-threaded run, execute every work item exactly once and terminate; the default schedule is replayed twice first. Thread counts 1..2*cores (free running), the partition arithmetic for all (items, threads), split_mut window disjointness, and all 90 interleavings of 3 threads x 2 operations on one shared Module are enumerated exhaustively.",
+         "Trusted: the additive yield hooks (feature verif-hooks). Not covered: races inside one kernel call (workers are serialised between yield points) and weak-memory effects; the library has no shared mutable state (source scan recorded as a coverage note). Integer preparation (fhe_uint_prepare_custom_multi_thread) is hooked but not yet driven.",
+         "3/C20"),
  "C07": ("exploration",
          "bounded exhaustive enumeration (E1) of DFT-domain operation shapes x parameters x value classes against a schoolbook negacyclic product over exact integers",
          "Transforms (every (step, offset) incl. past the end), transform-domain add/sub/copy/zero/scaled add, inverse transforms (3 forms), svp (3 forms), vmp (2 forms, every limb_offset, all rows/cols_in/cols_out/size combinations 1..3), convolutions (apply, pairwise i==j and i!=j, self, by-constant; every cnv_offset, top-limb masks) are executed on four backends at N=8,16 for several radices up to the domain limit, each from two garbage fills, and the exact integer value of the result (read through the inverse transform) is compared bit for bit with the schoolbook product; all 2^16 single-limb svp products at N=8; large-N classes up to 2^16. Four defects found this way were repaired.",
